@@ -26,44 +26,51 @@ func init() {
 		Level: "fault_enumeration",
 		Rule: "for every corpus frame and EVERY cut offset k in [0,len): the scripted reader delivers exactly the first k bytes and then ends the stream (io.EOF) or fails with a fresh error value E; " +
 			"the delivered prefix is fragmented by every schedule with at most 2 (quick) / 3 (thorough) non-default Read answers (short read, zero read, last chunk delivered together with the error). " +
+			"Every (frame, cut, kind) is repeated, with one deviation less, through eight further reader implementations over the scripted source or holding the prefix (bufio.Reader 16/4096/pre-filled, a reader of its own type with ReadByte/Peek/Discard/WriteTo, io.LimitedReader, bytes.Buffer, bytes.Reader, strings.Reader) and with four further shapes of E (wrapping io.EOF, wrapping io.ErrUnexpectedEOF, a net.Error-like value whose Timeout() and Temporary() are true, wrapping io.ErrShortWrite). " +
 			"Every frame of the valid corpus V (~2.7k frames) is cut at every offset as well, with 0 (quick) / 1 (thorough) further deviations. Required: nil packet and non-nil error; errors.Is(err,E) whenever the reader returned E; errors.Is(err,io.EOF) for k=0 with EOF. " +
 			"distinct_nontrivial = distinct (frame, k, kind, schedule) with k>0 (the fault strikes inside the frame).",
 		Assumptions: []string{
-			"E is a fresh pointer-typed error per execution, so errors.Is can only succeed through wrapping or identity",
+			"E is a fresh pointer-typed error per execution, so errors.Is(err,E) can only succeed through wrapping or identity",
+			"for frames whose fixed header alone is objectionable (reserved type or flags, non-minimal length field) a decoder may refuse on that ground; the identity of E is then not demanded",
 		},
 		Run:    runC08,
 		Replay: replayC08,
 	})
 }
 
-func c08Exec(name string, frame []byte, k int, kind env.EndKind, choices []int) *core.Finding {
-	E := &env.InjectedError{Tag: "E"}
-	var rd *env.Reader
+// c08Var is one environment variant: which reader implementation carries
+// the stream and what shape the injected error has.
+type c08Var struct {
+	RK env.Kind
+	EK env.ErrKind
+}
+
+func c08Exec(name string, frame []byte, k int, kind env.EndKind, choices []int, v c08Var) *core.Finding {
+	E := env.NewError(v.EK, "E")
 	var f *core.Finding
 	explore.Replay(choices, func(c *explore.Chooser) bool {
-		f, rd = c08Once(name, frame, k, kind, c, E, true)
+		f, _ = c08Once(name, frame, k, kind, c, E, true, v)
 		return true
 	})
-	_ = rd
 	return f
 }
 
-func c08Once(name string, frame []byte, k int, kind env.EndKind, c *explore.Chooser, E error, log bool) (*core.Finding, *env.Reader) {
+func c08Once(name string, frame []byte, k int, kind env.EndKind, c *explore.Chooser, E error, log bool, v c08Var) (*core.Finding, *env.Reader) {
 	resetGlobals()
 	r := &env.Reader{Data: frame[:k], End: kind, E: E, C: c, MaxZero: 1, Log: log}
-	p, err, res := readPacket(r, stepBudget(len(frame)))
+	p, err, res := readPacket(env.Wrap(v.RK, r), stepBudget(len(frame)))
 	where := "body"
 	if k < 2 {
 		where = "header"
 	}
 	kindS := "eof"
 	if kind == env.EndErr {
-		kindS = "err"
+		kindS = "err:" + v.EK.String()
 	}
 	mk := func(class, what string) *core.Finding {
-		return &core.Finding{Class: class + "/" + kindS + "/" + where,
-			Sig:    map[string]string{"frame": name, "kind": kindS, "where": where},
-			Detail: fmt.Sprintf("frame %s (%s, %d bytes) cut after %d bytes, reader: %s => %s", name, abbrevHex(frame), len(frame), k, r.Describe(), what)}
+		return &core.Finding{Class: class + "/" + kindS + "/" + where + "/" + v.RK.String(),
+			Sig:    map[string]string{"frame": name, "kind": kindS, "where": where, "reader": v.RK.String()},
+			Detail: fmt.Sprintf("frame %s (%s, %d bytes) cut after %d bytes, through %s, scripted source: %s => %s", name, abbrevHex(frame), len(frame), k, v.RK, r.Describe(), what)}
 	}
 	switch {
 	case res.Panic != "":
@@ -71,21 +78,29 @@ func c08Once(name string, frame []byte, k int, kind env.EndKind, c *explore.Choo
 	case res.Budget:
 		return mk("nontermination", "step budget exceeded"), r
 	case p != nil:
-		return mk("packet-from-partial-frame", fmt.Sprintf("returned packet %q (err=%v) although only %d of %d bytes were delivered", clip(safeString(p), 80), err, r.Off, len(frame))), r
+		return mk("packet-from-partial-frame", fmt.Sprintf("returned packet %q (err=%v) although only %d of %d bytes were delivered", clip(safeString(p), 80), err, k, len(frame))), r
 	case err == nil:
 		return mk("no-error", "nil packet and nil error"), r
 	}
-	returnedE := false
-	for _, e := range r.Events {
-		if e.Err != "" && e.Err != "EOF" {
-			returnedE = true
-		}
+	// Did the decoder see E? On the scripted source itself: when the source
+	// returned it. Through a buffering wrapper the source may have returned
+	// E to the wrapper only; but a proper prefix of a frame never satisfies
+	// the decoder, so it must have read on until the wrapper passed E on -
+	// unless it refused the frame on the strength of the fixed header.
+	returnedE := kind == env.EndErr && v.RK.Scripted() && r.AfterEndOrEnded()
+	if v.RK != env.KRaw && !frameValid(frame) {
+		// through a buffering wrapper the source may have handed E to the
+		// wrapper although a decoder that judges content as it goes refused
+		// the (content-malformed) frame before the wrapper passed E on
+		returnedE = false
 	}
-	if !log {
-		returnedE = kind == env.EndErr && r.AfterEndOrEnded()
+	if c06HeaderObjectionable(frame) {
+		// a decoder may refuse this frame because of its fixed header,
+		// before or after the transport error reaches it
+		returnedE = false
 	}
 	if kind == env.EndErr && returnedE && !errors.Is(err, E) {
-		return mk("error-identity-lost", fmt.Sprintf("reader failed with E but errors.Is(err,E) is false: %v", err)), r
+		return mk("error-identity-lost", fmt.Sprintf("reader failed with E (%v) but errors.Is(err,E) is false: %v", E, err)), r
 	}
 	if kind == env.EndEOF && k == 0 && !errors.Is(err, io.EOF) {
 		return mk("eof-at-boundary-lost", fmt.Sprintf("stream ended on a frame boundary but errors.Is(err,io.EOF) is false: %v", err)), r
@@ -93,12 +108,55 @@ func c08Once(name string, frame []byte, k int, kind env.EndKind, c *explore.Choo
 	return nil, r
 }
 
+var frameValidCache = map[string]bool{}
+
+func frameValid(b []byte) bool {
+	k := string(b)
+	if v, ok := frameValidCache[k]; ok {
+		return v
+	}
+	_, _, n, err := spec.Decode(b, true)
+	v := err == nil && n == len(b)
+	frameValidCache[k] = v
+	return v
+}
+
+// c08Variants lists the environments beyond the base one (scripted source,
+// opaque error): every reader implementation, every error shape.
+func c08Variants(kind env.EndKind) []c08Var {
+	var vs []c08Var
+	for _, rk := range env.AllKinds() {
+		if rk == env.KRaw {
+			continue
+		}
+		if !rk.Scripted() && kind == env.EndErr {
+			continue // these can only end with io.EOF
+		}
+		vs = append(vs, c08Var{RK: rk})
+	}
+	if kind == env.EndErr {
+		for ek := env.EPlain + 1; ek < env.NErrKinds; ek++ {
+			vs = append(vs, c08Var{RK: env.KRaw, EK: ek}, c08Var{RK: env.KBufio4096, EK: ek})
+		}
+	}
+	return vs
+}
+
 func runC08(x *core.Ctx) {
 	bound := 2
 	if x.Thorough() {
 		bound = 3
 	}
-	frames := append([]CFrame{}, streamCorpus()...)
+	var frames []CFrame
+	for _, f := range streamCorpus() {
+		if c06HeaderLen(f.B) > 5 {
+			// a five-byte length field does not start a frame at all: the
+			// decoder may refuse it for that reason before or after it sees
+			// the transport fail, so there is no cut "inside a frame" to judge
+			continue
+		}
+		frames = append(frames, f)
+	}
 	nCorpus := len(frames)
 	for _, v := range validCorpus() {
 		frames = append(frames, CFrame{Name: "V:" + v.Name, B: v.B, Valid: true, Type: v.B[0] >> 4})
@@ -117,35 +175,50 @@ func runC08(x *core.Ctx) {
 					continue
 				}
 				k, kind := k, kind
-				E := &env.InjectedError{Tag: "E"}
-				e := &explore.Explorer{Bound: bound}
-				e.Run = func(c *explore.Chooser) bool {
-					fd, _ := c08Once(f.Name, f.B, k, kind, c, E, false)
-					x.Eval(fmt.Sprintf("bound%d", bound))
-					if k > 0 {
-						taken := c.Taken()
-						x.Distinct(core.HashInts(fmt.Sprintf("%s/%d/%d", f.Name, k, kind), taken))
+				vars := append([]c08Var{{}}, c08Variants(kind)...)
+				for vi, v := range vars {
+					v := v
+					b := bound
+					if vi > 0 {
+						// the other environments: one deviation less (never below 0)
+						if b--; b < 0 {
+							b = 0
+						}
+						if !v.RK.Scripted() {
+							b = 0
+						}
 					}
-					if fd != nil {
-						taken := c.Taken()
-						x.Report(c08Exec(f.Name, f.B, k, kind, taken), func() core.Case {
-							return core.Case{Harness: "c08", Frame: hexOf(f.B), Choices: taken, Params: map[string]any{"k": k, "kind": int(kind), "name": f.Name}}
-						}, func() *core.Finding { return c08Exec(f.Name, f.B, k, kind, taken) })
+					E := env.NewError(v.EK, "E")
+					e := &explore.Explorer{Bound: b}
+					e.Run = func(c *explore.Chooser) bool {
+						fd, _ := c08Once(f.Name, f.B, k, kind, c, E, false, v)
+						x.Eval(fmt.Sprintf("bound%d.%s.%s", b, v.RK, v.EK))
+						if k > 0 {
+							taken := c.Taken()
+							x.Distinct(core.HashInts(fmt.Sprintf("%s/%d/%d/%d/%d", f.Name, k, kind, v.RK, v.EK), taken))
+						}
+						if fd != nil {
+							taken := c.Taken()
+							x.Report(c08Exec(f.Name, f.B, k, kind, taken, v), func() core.Case {
+								return core.Case{Harness: "c08", Frame: hexOf(f.B), Choices: taken, Params: map[string]any{"k": k, "kind": int(kind), "name": f.Name, "reader": int(v.RK), "errkind": int(v.EK)}}
+							}, func() *core.Finding { return c08Exec(f.Name, f.B, k, kind, taken, v) })
+						}
+						return !x.Expired()
 					}
-					return !x.Expired()
-				}
-				e.Explore()
-				if !e.Complete {
-					x.R.Exhaustive = false
+					e.Explore()
+					if !e.Complete {
+						x.R.Exhaustive = false
+					}
 				}
 			}
 		}
 		x.Sample("frames", 3, func() any {
-			return map[string]any{"frame": f.Name, "hex": abbrevHex(f.B), "cut_offsets": len(f.B), "kinds": "EOF, E"}
+			return map[string]any{"frame": f.Name, "hex": abbrevHex(f.B), "cut_offsets": len(f.B), "kinds": "EOF, E (5 shapes)", "readers": len(env.AllKinds())}
 		})
 	}
 }
 
 func replayC08(c core.Case) *core.Finding {
-	return c08Exec(paramStr(c.Params, "name"), unhex(c.Frame), paramInt(c.Params, "k"), env.EndKind(paramInt(c.Params, "kind")), c.Choices)
+	v := c08Var{RK: env.Kind(paramInt(c.Params, "reader")), EK: env.ErrKind(paramInt(c.Params, "errkind"))}
+	return c08Exec(paramStr(c.Params, "name"), unhex(c.Frame), paramInt(c.Params, "k"), env.EndKind(paramInt(c.Params, "kind")), c.Choices, v)
 }
